@@ -131,6 +131,27 @@ type gzReaderModel struct{ f *fileModel }
 
 func (*gzReaderModel) isModel() {}
 
+// nameErr is the errno a path earns before the file system even looks for
+// the entry: a NUL byte (EINVAL), a component longer than NAME_MAX
+// (ENAMETOOLONG), a path that goes through a regular file (ENOTDIR).  None of
+// them is "does not exist".
+func (f *fsModel) nameErr(path string) string {
+	if strings.IndexByte(path, 0) >= 0 {
+		return "invalid argument"
+	}
+	for _, c := range strings.Split(path, "/") {
+		if len(c) > 255 {
+			return "file name too long"
+		}
+	}
+	for d := filepath.Dir(path); d != "/" && d != "."; d = filepath.Dir(d) {
+		if n := f.nodes[d]; n != nil && !n.dir {
+			return "not a directory"
+		}
+	}
+	return ""
+}
+
 func (f *fsModel) parentIsDir(path string) bool {
 	n := f.nodes[filepath.Dir(path)]
 	return n != nil && n.dir
@@ -190,6 +211,9 @@ func init() {
 	})
 	reg("os.Stat", func(i *interpreter, fr *frame, args []value) value {
 		p := pathArg(args[0])
+		if msg := i.env.fsm().nameErr(p); msg != "" {
+			return tuple{iface{}, i.pathErr("stat", p, msg, false)}
+		}
 		n := i.env.fsm().nodes[p]
 		if n == nil {
 			return tuple{iface{}, i.pathErr("stat", p, "no such file or directory", true)}
@@ -245,6 +269,9 @@ func init() {
 	reg("os.Remove", func(i *interpreter, fr *frame, args []value) value {
 		p := pathArg(args[0])
 		f := i.env.fsm()
+		if msg := f.nameErr(p); msg != "" {
+			return i.pathErr("remove", p, msg, false)
+		}
 		n := f.nodes[p]
 		if n == nil {
 			return i.pathErr("remove", p, "no such file or directory", true)
@@ -261,6 +288,11 @@ func init() {
 	reg("os.Rename", func(i *interpreter, fr *frame, args []value) value {
 		from, to := pathArg(args[0]), pathArg(args[1])
 		f := i.env.fsm()
+		for _, q := range []string{from, to} {
+			if msg := f.nameErr(q); msg != "" {
+				return i.pathErr("rename", q, msg, false)
+			}
+		}
 		n := f.nodes[from]
 		if n == nil {
 			return i.pathErr("rename", from, "no such file or directory", true)
@@ -299,6 +331,9 @@ func init() {
 	})
 	reg("os.Open", func(i *interpreter, fr *frame, args []value) value {
 		p := pathArg(args[0])
+		if msg := i.env.fsm().nameErr(p); msg != "" {
+			return tuple{(*fileModel)(nil), i.pathErr("open", p, msg, false)}
+		}
 		n := i.env.fsm().nodes[p]
 		if n == nil {
 			return tuple{(*fileModel)(nil), i.pathErr("open", p, "no such file or directory", true)}
@@ -310,6 +345,9 @@ func init() {
 		flag := int(asInt64(args[1]))
 		const oCreate, oTrunc = 0x40, 0x200
 		f := i.env.fsm()
+		if msg := f.nameErr(p); msg != "" {
+			return tuple{(*fileModel)(nil), i.pathErr("open", p, msg, false)}
+		}
 		n := f.nodes[p]
 		if n != nil && n.dir {
 			return tuple{(*fileModel)(nil), i.pathErr("open", p, "is a directory", false)}
@@ -574,6 +612,9 @@ func asBool(v value) bool {
 
 func (i *interpreter) writeFile(p string, data value) value {
 	f := i.env.fsm()
+	if msg := f.nameErr(p); msg != "" {
+		return i.pathErr("open", p, msg, false)
+	}
 	n := f.nodes[p]
 	if n != nil && n.dir {
 		return i.pathErr("open", p, "is a directory", false)
